@@ -211,3 +211,62 @@ Theorem C16_help_cyclic_single_cycle :
          start + 2 <= fin1 -> fin1 <= n -> SingleCycle (help_cyclic start fin1 n) (fin1 - start).
 Proof. exact @help_cyclic_single_cycle. Qed.
 Print Assumptions C16_help_cyclic_single_cycle.
+
+From V Require Import Base Perm PermProofs Puzzles PuzzlesProofs CubeGeneral CubeGeneralMoves.
+
+(* EVERY n >= 2 (no bound): the cube move generator returns 3n named layer turns, each a permutation of 6n^2 stickers of order 4 moving exactly 4n (inner) / 4n + n^2 - (n mod 2) (outer) stickers; the turns of one axis commute pairwise, have disjoint supports and together move every sticker except the two axis-face centres *)
+Theorem C16_cube_moves_structure_general :
+  forall n : nat, 2 <= n -> CubeMovesStructure n.
+Proof. exact @cube_moves_structure_general. Qed.
+Print Assumptions C16_cube_moves_structure_general.
+
+(* the closed form: every layer turn IS the geometric quarter turn of its slice on sticker coordinates (face, row, col) *)
+Theorem C16_move_perm_nth :
+  forall (n : nat) (t : mtype) (s i : nat),
+         2 <= n -> s < n -> i < 6 * (n * n) -> List.nth i (move_perm n t s) 0 = turn_fun n t s i.
+Proof. exact @move_perm_nth. Qed.
+Print Assumptions C16_move_perm_nth.
+
+(* a turn moves EXACTLY the stickers of its layer (explicit list: the rim of the slice, plus the outer face without its centre) *)
+Theorem C16_move_perm_support :
+  forall (n : nat) (t : mtype) (s x : nat),
+         2 <= n -> s < n -> List.In x (layer_stickers n t s) <-> Moved (move_perm n t s) x.
+Proof. exact @move_perm_support. Qed.
+Print Assumptions C16_move_perm_support.
+
+(* order 4 *)
+Theorem C16_move_perm_Order4 :
+  forall (n : nat) (t : mtype) (s : nat), 2 <= n -> s < n -> Order4 (move_perm n t s).
+Proof. exact @move_perm_Order4. Qed.
+Print Assumptions C16_move_perm_Order4.
+
+(* turns of one axis commute *)
+Theorem C16_move_perm_commute :
+  forall (n : nat) (t : mtype) (s s' : nat),
+         2 <= n ->
+         s < n ->
+         s' < n ->
+         compose (move_perm n t s) (move_perm n t s') = compose (move_perm n t s') (move_perm n t s).
+Proof. exact @move_perm_commute. Qed.
+Print Assumptions C16_move_perm_commute.
+
+(* the slices of one axis cover every sticker except the axis-face centres *)
+Theorem C16_axis_cover :
+  forall (n : nat) (t : mtype) (i : nat),
+         2 <= n ->
+         i < 6 * (n * n) ->
+         (exists s : nat, s < n /\ Moved (move_perm n t s) i) <-> ~ AxisCentre n t i.
+Proof. exact @axis_cover. Qed.
+Print Assumptions C16_axis_cover.
+
+(* the returned dictionary (names, renaming of the r-turns, order) in closed form *)
+Theorem C16_cube_moves_eq :
+  forall n : nat, 2 <= n -> cube_moves n = Ok (canonical n).
+Proof. exact @cube_moves_eq. Qed.
+Print Assumptions C16_cube_moves_eq.
+
+(* the face-rotation bookkeeping emits each 4-orbit exactly once *)
+Theorem C16_rotate_face_cw_NoDup :
+  forall n face : nat, List.NoDup (List.concat (rotate_face_cw n face)).
+Proof. exact @rotate_face_cw_NoDup. Qed.
+Print Assumptions C16_rotate_face_cw_NoDup.
